@@ -146,10 +146,10 @@ def notes_of(score):
     return [n for c in score.chords for m in c.score.values() for n in m.notes]
 
 
-def in_claim(score):
+def in_claim(score, zero_ok=False):
     """no drum / pattern notes, well referenced, positive durations, notation range"""
     ns = notes_of(score)
-    if any(n.type in ('d', 'x') for n in ns) or any(Fraction(n.duration) <= 0 for n in ns):
+    if any(n.type in ('d', 'x') for n in ns) or any(Fraction(n.duration) < 0 or (Fraction(n.duration) == 0 and not zero_ok) for n in ns):
         return False
     if not sound.well_referenced(score):
         return False
@@ -257,10 +257,31 @@ def rand_score(ctx, claim=True, kinds=None, p_amp=0.3, **kw):
             s = tie_over_chords(rng, s)
         if rng.random() < 0.35:
             s = tabled_modes(rng, s)
+        if rng.random() < 0.15 and not claim:
+            s = zero_anchors(rng, s)
         last = s
         if not claim or in_claim(s):
             return s
     return last
+
+
+def zero_anchors(rng, s):
+    """zero-length notes (the empty figure `n`) placed in front of relative notes: they sound nothing but give the
+    relative note its reference pitch — the idiom the library's own grupetto realisation produces
+    (`note.n + su1 + ...`; seed C08-7 skipped them in the MusicXML export before the reference was updated)"""
+    from musiclang import Score, Note, Melody
+    chords = []
+    for ch in s.chords:
+        c = ch.copy()
+        for part, m in list(c.score.items()):
+            notes = []
+            for n in m.notes:
+                if n.is_relative and rng.random() < 0.5:
+                    notes.append(Note(rng.choice(['s', 's', 'h', 'c']), rng.randint(0, 6), rng.choice([0, 0, 1, -1]), 0))
+                notes.append(n)
+            c.score[part] = Melody(notes)
+        chords.append(c)
+    return Score(chords)
 
 
 def tabled_modes(rng, s):
@@ -483,7 +504,26 @@ def check_roundtrip(inp):
     return None
 
 
-ORACLES = {'sound': check_sound, 'strip': check_strip, 'roundtrip': check_roundtrip}
+def check_anchor(inp):
+    """scores with zero-length notes (the empty figure `n`, used as pitch anchors in front of relative notes): the
+    sequence of sounding pitches of every part is the same in the export and in the rendering.  Only the pitches are
+    compared here: how a zero-length note itself is laid out / tied in the export is not claimed (the property speaks of
+    notes that sound), what the relative notes after it sound is."""
+    s = load(inp)
+    exp = midi_sound(s)
+    try:
+        got = read_export(s)
+    except Exception as e:
+        return {'observed': f'export raises {type(e).__name__}: {e}', 'expected': 'export succeeds', 'class': 'raises:' + type(e).__name__}
+    for part in sound.part_names(s):
+        a = [ps for ps, off, d in merge_ties(got.get(part, [])) if d > 0]
+        b = [ps for ps, off, d in exp[part] if d > 0]
+        if a != b:
+            return {'observed': {part: a}, 'expected': {part: b}, 'class': 'anchor-pitches', 'part': part}
+    return None
+
+
+ORACLES = {'sound': check_sound, 'strip': check_strip, 'roundtrip': check_roundtrip, 'anchor': check_anchor}
 
 WITNESSES = [
     # D4 (a) (fixed): modes without a spelling table
@@ -523,7 +563,7 @@ def run(ctx, name, text, bucket=None):
         s = load(inp)
     except Exception:
         return
-    if not in_claim(s):
+    if not in_claim(s, zero_ok=(name == 'anchor')):
         return
     if name != 'sound' and gap_cont_parts(s):
         return          # the known finding is reported once, by the `sound` oracle
@@ -566,6 +606,10 @@ def oracle(ctx):
         run(ctx, 'sound', text)
         if ctx.rng.random() < (0.2 if ctx.tier == 'quick' else 0.5):
             run(ctx, 'strip', text)
+    for _ in range(ctx.n(120, 2500)):
+        s = zero_anchors(ctx.rng, rand_score(ctx, claim=False))
+        if any(n.duration == 0 for n in notes_of(s)):
+            run(ctx, 'anchor', str(s), ['zero-length anchors'])
     # file round trip (slow): simple durations only, music21 cannot write every tuplet
     simple = [Fraction(4), Fraction(2), Fraction(1), Fraction(1, 2), Fraction(1, 4), Fraction(3), Fraction(3, 2)]
     for text in (WITNESSES[:6] if ctx.tier == 'quick' else WITNESSES):
